@@ -800,6 +800,7 @@ func Run(args []string) *rep.Report {
 	seed := fs.Int64("seed", 1, "base seed")
 	family := fs.String("family", "announce", "announce | mixed | scoped | listeners | close | faults | stall | idle | idlex")
 	stallAds := fs.Int("stall-ads", 90, "advertisements of the long chain of family stall")
+	stallMax := fs.Int("stall-max", 0, "family stall: the second scenario uses a chain of this many advertisements (0: none)")
 	fs.Parse(args)
 	if *shard == "" {
 		return rep.RunSharded("c08", args, *procs)
@@ -827,8 +828,14 @@ func Run(args []string) *rep.Report {
 		r.SetExtra("read_error", "nested publisher")
 		return r
 	}
-	var long, longer *chain.Pub
+	var long, longer, longest *chain.Pub
 	if *family == "stall" {
+		if *stallMax > 0 {
+			// one scenario piles up more notifications than any bounded queue of a plausible size would hold
+			if ch, err := chain.Build("ads", *stallMax, "c14-longest"); err == nil {
+				longest, _ = chain.NewPub(ch, "c14-longest-pub", true)
+			}
+		}
 		// one scenario in eight piles up more than 256 notifications
 		if ch, err := chain.Build("ads", 4**stallAds, "c14-longer"); err == nil {
 			longer, _ = chain.NewPub(ch, "c14-longer-pub", true)
@@ -891,6 +898,9 @@ func Run(args []string) *rep.Report {
 			if i%8 == 0 && longer != nil {
 				sc.Ads = len(longer.Chain.Cids) - 1
 			}
+			if i == 1 && longest != nil {
+				sc.Ads = len(longest.Chain.Cids) - 1
+			}
 		case "listeners":
 			sc.Listeners, sc.Cancels = 2+(i/2)%2, i%2
 			sc.Readers = i%4 >= 2 // half of the runs: stalled readers only; the others mix fast, slow and stalled readers
@@ -910,6 +920,9 @@ func Run(args []string) *rep.Report {
 			use = []*chain.Pub{long}
 			if sc.Ads > len(long.Chain.Cids)-1 {
 				use = []*chain.Pub{longer}
+			}
+			if longer != nil && sc.Ads > len(longer.Chain.Cids)-1 {
+				use = []*chain.Pub{longest}
 			}
 		}
 		log, key, detail := Execute(sc, use)
